@@ -146,6 +146,11 @@ def run_unit(ctx, unit):
             # the same noisy stream given as a file: same rows, a report per region, failure under panic
             cases.append(("file/stderr", core.Case(["@D@/noisy.json", "--on-error", "stderr"] + pargs, b"", files=[("noisy.json", noisy)])))
             cases.append(("file/panic", core.Case(["@D@/noisy.json", "--on-error", "panic"] + pargs, b"", files=[("noisy.json", noisy)])))
+        if (unit["wsseed"] & 7) == 1:
+            # a clean file that starts with a byte-order mark (or other bytes an editor may put first): one more malformed region
+            hd = (b"\xef\xbb\xbf", b"\xef\xbb\xbf\n", b"\xff\xfe", b"\xef\xbb\xbf ")[(unit["wsseed"] >> 3) & 3]
+            cases.append(("bomfile/stderr", core.Case(["@D@/bom.json", "--on-error", "stderr"] + pargs, b"", files=[("bom.json", hd + clean)])))
+            cases.append(("bomfile/panic", core.Case(["@D@/bom.json", "--on-error", "panic"] + pargs, b"", files=[("bom.json", hd + clean)])))
     obs = ctx.drv.run_many([c for _, c in cases])
     res = {}
     for (name, c), o in zip(cases, obs):
@@ -228,6 +233,16 @@ def run_unit(ctx, unit):
         if o.result != "err" or (streaming and o.stdout != res["prefix"].stdout):
             return bad("file-panic", "the noisy stream given as a file: --on-error=panic did not fail at the first malformed byte", "file/panic")
         st.count("file_delivery_runs")
+    if "bomfile/stderr" in res:
+        o = res["bomfile/stderr"]
+        el = [l for l in o.stderr.split(b"\n") if l]
+        if o.result != "ok" or o.stdout != base.stdout or len(el) < 1:
+            return bad("bom-file-stderr", "a file starting with a byte-order mark: rows differ or the leading malformed bytes are not reported", "bomfile/stderr")
+        o = res["bomfile/panic"]
+        header = base.stdout.split(b"\n")[0] + b"\n" if unit["pipeline"] == "csv" else b""
+        if o.result != "err" or o.stdout not in (b"", header):
+            return bad("bom-file-panic", "a file starting with a byte-order mark: --on-error=panic did not fail at the first byte", "bomfile/panic")
+        st.count("bom_file_runs")
     st.count("noise_regions", len(regions))
     st.count("error_lines_seen", len(elines))
     if regions and unit["values"]:
